@@ -32,7 +32,7 @@ CLAIMED = {
     ),
     "C04": dict(
         technique="property-based testing with rapid (boundary construction around io/fs.ValidPath + fuzzed strings) and native coverage-guided go fuzzing in the thorough tier; oracle = error class + unchanged snapshots of every constituent FS",
-        text=("For 11 subjects (mem, keyvalue/plain, nested mounts, Sub(mem), Sub(mount), cache, tar -- healthy, over a truncated archive, and with a cancelled context --, os.FS, Sub over a lenient Open-only FS) in generated start states, every helper is probed (its other arguments taking degenerate values -- zero time, zero bits, empty data -- a third of the time) with names at the ValidPath boundary, "
+        text=("For 12 subjects (mem, keyvalue/plain, keyvalue over a store that is offline (an invalid name must be refused before the store is asked), nested mounts, Sub(mem), Sub(mount), cache, tar -- healthy, over a truncated archive, and with a cancelled context --, os.FS, Sub over a lenient Open-only FS) in generated start states, every helper is probed (its other arguments taking degenerate values -- zero time, zero bits, empty data -- a third of the time) with names at the ValidPath boundary, "
               "fuzzed names and valid odd names; invalid names must give ErrInvalid and leave every constituent file system (and the os directory with its sentinel sibling) unchanged; valid names are never refused as invalid "
               "and backslash/colon are literal name bytes. Thorough adds a 45 s native fuzz campaign (~1M executions) over (subject, helper, position, name bytes)."),
         note="validity oracle is the standard library; 'no OS path reached the kernel' is approximated by directory + sentinel snapshots; ErrNotImplemented accepted where the helper is unsupported for valid names too",
@@ -53,7 +53,7 @@ CLAIMED = {
     "C08": dict(
         technique="property-based testing with rapid (generated states/arguments) + exhaustive enumeration inside each case of all capability subsets (generated mask types) and of every primitive-call fault index; differential oracle = the full-capability FS",
         text=("For each generated (start state, helper call) every subset of the interfaces the helper inspects is enumerated and compared with the full-capability run (result, sentinel class, final snapshot) or must be a clean ErrNotImplemented; "
-              "then every primitive call of that run is failed in turn and the helper must not report success unless the work was verifiably done (a failing close of a written file loses the data). Subjects mem.FS and os.FS (whose start state may hold a symbolic link; then only subsets exposing Lstat are compared); all *File helpers on a bare file. "
+              "then every primitive call of that run is failed in turn and the helper must not report success unless the work was verifiably done (a failing close of a written file loses the data). Subjects mem.FS and os.FS (whose start state may hold a symbolic link; then only subsets exposing Lstat are compared); all *File helpers on a bare file, with boundary arguments and read-only handles. "
               "The subset and fault-index spaces are exhaustive per case; states/arguments are sampled."),
         note="mem.FS itself uses the fallbacks for helpers it has no method for, so fallback-vs-method differences are only visible on the os.FS leg; RemoveAll of a directory without any Remove is excluded while known finding C08:removeall-dir-without-remove reproduces",
     ),
@@ -84,7 +84,7 @@ CLAIMED = {
     ),
     "C14": dict(
         technique="property-based testing with rapid (generated histories) + exhaustive enumeration of the failing store-call index inside each case; oracle = error must surface / result equals fault-free result, no panic, FS view equals the store's real contents",
-        text=("For every generated history (namespace and handle steps) every store call of the fault-free run is failed in turn, on a lazy plain Store (serial fallback), on the real in-memory store behind a rejecting TransactionStore, and on a lock-taking TransactionStore over the lazy store (a transaction abandoned on an error path makes the next operation hang); "
+        text=("For every generated history (namespace and handle steps) every store call of the fault-free run is failed in turn, (one call, or an outage of 2-6 consecutive calls) on a lazy plain Store (serial fallback), on the real in-memory store behind a rejecting TransactionStore, and on a lock-taking TransactionStore over the lazy store (a transaction abandoned on an error path makes the next operation hang); "
               "a rejected Set must always surface as an error, a failed Get/Data/list must surface unless the result is identical to the fault-free one, nothing may panic or hang during or after, and at the end a fresh look-up must show exactly what the store holds. "
               "Fault indices are exhaustive per history (<=200); histories are sampled."),
         note="one fault per run; the wrapper for the TransactionStore rejects operations inside the transaction (the mem store itself cannot fail); examples/s3 is not buildable offline, its Store shape is reproduced by the harness's plain store",
@@ -124,7 +124,7 @@ CLAIMED = {
     "C09": dict(
         technique="property-based testing with rapid over roots, volumes, conventions, names and constructed OS-path candidates; oracles computed by splitting/cleaning in the harness (round-trip and inverse relations); differential against the raw os package at root+name for live operations; native coverage-guided fuzzing in the thorough tier",
         text=("Through the verif hook both the Unix and the Windows convention are driven on Linux: valid names must map to volume + separator + root and name elements, invalid ones to ErrInvalid; ToOSPath/FromOSPath must round-trip; any absolute candidate FromOSPath accepts must be a valid FS path inside the root whose "
-              "forward image is the lexically cleaned candidate. A live leg exercises the exported functions of this host (relative paths refused); a liveops leg runs every name-taking operation (Mkdir, MkdirAll, WriteFile, Symlink, Rename, Remove, Chmod, Chtimes) through an os.FS built by 1-3 Sub calls over oddly named directories and, in a twin directory, the raw os package at root+name, comparing both trees with Lstat/Readlink after every step. Thorough adds ~2M native fuzz executions."),
+              "forward image is the lexically cleaned candidate. A live leg exercises the exported functions of this host (relative paths refused); a liveops leg runs every name-taking operation (Mkdir, MkdirAll, WriteFile, Symlink, Rename, Remove, Chmod, Chtimes) through an os.FS built by 1-3 Sub calls over oddly named directories and, in a twin directory, the raw os package at root+name, comparing both trees with Lstat/Readlink after every step; afterwards the failing calls of read-only, directory and closed handles (incl. io.Copy in both directions) are provoked and no error may carry the OS path. Thorough adds ~2M native fuzz executions."),
         note="names or Sub directories containing a backslash or colon under the Windows convention have no exact OS spelling: ErrInvalid or 'inside the root' is accepted; OS error paths under Sub roots are checked by C05",
     ),
     "C20": dict(
